@@ -964,6 +964,29 @@ def gen_C09(tier, seed):
         p.frame(lf, 'FR', [c])
         p.write(1)
         progs.append(p.build())
+    # header id / sequence number re-assigned on the header object: before the first write, between two writes, in the second of
+    # two logical files, after the origin or before it
+    for i in range(8):
+        p = Prog(f'C09-reheader-{i}', {'kind': 'reheader'})
+        p.file(1, vrl=512)
+        lfs = []
+        for k in range(1 + (i % 4 == 3)):
+            lf = p.lf(1, lf=k + 1, fh_id=f'PROVISIONAL-{k}', fh_seq=k + 1)
+            if i % 2 == 0:
+                p.origin(lf, name='O')
+            if i < 4 or k == 1:
+                p.set_header(lf, 'header_id', ['WELL-7 RUN 2 (REPROCESSED)', 'X', rand_name(rng, 65), 'SECOND LF'][i % 4])
+            if i % 2 == 1:
+                p.origin(lf, name='O')
+            c = p.channel(lf, 'CH', data=np.arange(3, dtype='float64'))
+            p.frame(lf, 'FR', [c])
+            lfs.append(lf)
+        p.write(1, fname='first.dlis')
+        if i >= 4:
+            p.set_header(lfs[-1], 'header_id', f'FINAL ID {i}')
+            p.set_header(lfs[-1], 'sequence_number', 40 + i)
+        p.write(1, fname='second.dlis')
+        progs.append(p.build())
     # every class once as the very first object of a logical file, the origin later
     for cls in [c for c in ORDER if c not in ('frame',)]:
         p = Prog(f'C09-first-{cls}', {'kind': 'firstclass', 'cls': cls})
